@@ -20,3 +20,17 @@ VARIANTS = [
     V("twin-y1-form", RH, "y1 = y0 + (f0 + f1) * (0.5 * dt) + self.sde.prod(g0 + g1, 0.5 * dW)",
       "y1 = y0 + 0.5 * dt * f0 + 0.5 * dt * f1 + 0.5 * self.sde.prod(g0, dW) + 0.5 * self.sde.prod(g1, dW)", expect="silent"),
 ]
+
+BS = "torchsde/_core/base_solver.py"
+SNAP = "                if ts[-1] - next_t < 1e-3 * step_size:\n"
+VARIANTS += [
+    # the defect repaired by 3ca4a9b: a rounding-size remainder becomes a step of its own
+    V("grid-no-merge", BS, SNAP, "                if ts[-1] - next_t < 0 * step_size:\n", rule="R15.3"),
+    V("grid-merge-absolute-tiny", BS, SNAP, "                if ts[-1] - next_t < 1e-30:\n", rule="R15.3"),
+    V("grid-merge-wrong-sign", BS, SNAP, "                if next_t - ts[-1] > 1e-3 * step_size:\n", rule="R15.3"),
+    V("grid-merge-half-step", BS, SNAP, "                if ts[-1] - next_t < 0.6 * step_size:\n", rule="R15.3"),
+    V("grid-merge-to-output-time", BS, SNAP + "                    # The grid", "                if out_t - next_t < 1e-3 * step_size:\n                    # The grid", rule="R12.1"),
+    V("twin-grid-merge-le", BS, SNAP, "                if ts[-1] - next_t <= 1e-3 * step_size:\n", expect="silent"),
+    V("twin-grid-merge-1e-4", BS, SNAP, "                if ts[-1] - next_t < 1e-4 * step_size:\n", expect="silent"),
+    V("twin-grid-merge-rearranged", BS, SNAP, "                if next_t + 1e-3 * step_size > ts[-1]:\n", expect="silent"),
+]
